@@ -207,6 +207,9 @@ pub struct EpCfg {
     /// v5.0: every PUBLISH of the application carries a User Property whose value has this many bytes (0 =
     /// none): property blocks around the 127 / 128 boundary in the connection-level checks
     pub pub_pad: usize,
+    /// extra payload bytes of a publish that uses an alias with an empty topic (its store copy then outgrows the
+    /// packet that registered the alias)
+    pub use_extra: usize,
 }
 
 impl EpCfg {
@@ -232,6 +235,7 @@ impl EpCfg {
             stimuli: Arc::new(vec![]),
             force_connect_ver: None,
             pub_pad: 0,
+            use_extra: 0,
         }
     }
     pub fn on(&self, g: &str) -> bool {
@@ -633,7 +637,11 @@ impl<P: Pid> Ep<P> {
         if self.cfg.pub_pad > 0 && ver == Ver::V5 {
             props.push(Prop { id: 0x26, val: PVal::Pair(b"k".to_vec(), vec![b'v'; self.cfg.pub_pad]) });
         }
-        AP::Publish { ver, dup, qos: q, retain: false, topic, pid: id, props, payload: PAYLOAD.to_vec() }
+        let mut payload = PAYLOAD.to_vec();
+        if matches!(al, Al::Use(_)) {
+            payload.extend(std::iter::repeat(b'p').take(self.cfg.use_extra));
+        }
+        AP::Publish { ver, dup, qos: q, retain: false, topic, pid: id, props, payload }
     }
 
     fn lib_send(&mut self, ap: &AP) -> Call {
